@@ -314,6 +314,7 @@ func gsub(t *rt.Thread, c *rt.GoCont) (rt.Cont, error) {
 		sb         strings.Builder // Build the result string into this
 		matchCount int64
 		allowEmpty = true
+		changed    bool // true once a substitution has been written to sb
 	)
 	// We require memory for the string we build as we go along.  In order to
 	// save allocations in case there are no substitutions, we do not start
@@ -340,6 +341,7 @@ func gsub(t *rt.Thread, c *rt.GoCont) (rt.Cont, error) {
 				_, _ = sb.WriteString(s[sj:start])
 				_, _ = sb.WriteString(sub)
 				sj = end
+				changed = true
 			}
 		}
 		allowEmpty = start >= end
@@ -351,8 +353,10 @@ func gsub(t *rt.Thread, c *rt.GoCont) (rt.Cont, error) {
 	}
 	var res rt.Value
 	switch {
-	case sb.Len() == 0:
-		// We return the input string to save an allocation.
+	case !changed:
+		// Nothing was substituted: we return the input string to save an
+		// allocation.  (An empty builder is not enough to know that: the
+		// result of the substitutions may be the empty string.)
 		res = c.Arg(0)
 	case sj < len(s):
 		t.RequireBytes(len(s) - sj)
